@@ -1,4 +1,5 @@
 import BS.Proofs.Reader
+import BS.Proofs.Flat
 /-!
 # C17 — readers deliver the same rows however they are read
 
@@ -333,6 +334,34 @@ theorem filter_lawful {α} (U : Rd α) (p : α → Bool) (rem : U.σ → List α
       cases hfl : (filterLoop U p (fuelOf s.up) s.up k []).2.2
       · simp [hfl] at he
       · simp [hs, hfl]
+
+/-! ### flatmapReader -/
+
+/-- flatmapReader refines `List.flatMap`: the stash of a result that did not fit, the buffered
+inputs and the upstream's remaining rows are delivered in order, nothing twice, nothing lost,
+whatever the destination sizes and the upstream's chunking (proof in `BS.Proofs.Flat`). -/
+theorem flat_lawful {α β} (U : Rd α) (g : α → List β) (rem : U.σ → List α) (mu : U.σ → Nat)
+    (h : Lawful U rem mu) (fuelOf : U.σ → Nat) (hf : ∀ s, mu s + (rem s).length + 3 ≤ fuelOf s) :
+    Lawful (flatRd U g fuelOf)
+      (fun s => s.outb ++ s.inb.flatMap g ++ (if s.eof then [] else (rem s.up).flatMap g)) (fun _ => 0) :=
+  flat_lawful' U g rem mu h fuelOf hf
+
+/-- a flatmap over any scripted upstream drains to `rows.flatMap g` -/
+theorem flat_drain {α β} (g : α → List β) (u : Up α) (hu : u.ended = false)
+    (dest : Nat → Nat) (hd : ∀ i, 0 < dest i) :
+    let F := flatRd (upRd α) g (fun s => Up.mu s + (Up.rem s).length + 3)
+    drain F dest ((u.rest.flatMap g).length + 1) 0 ⟨u, [], [], false⟩ = u.rest.flatMap g := by
+  intro F
+  have hF := flat_lawful (upRd α) g Up.rem Up.mu (up_lawful α) (fun s => Up.mu s + (Up.rem s).length + 3)
+    (fun s => Nat.le_refl _)
+  have := drain_spec F _ _ hF dest hd ((u.rest.flatMap g).length + 1) 0 ⟨u, [], [], false⟩
+    (by simp [Up.rem, hu])
+  rw [this]
+  simp [Up.rem, hu]
+
+example : drain (flatRd (upRd Nat) (fun x => List.replicate x x) (fun s => Up.mu s + (Up.rem s).length + 3))
+    (fun _ => 2) 20 0 ⟨⟨[3, 0, 2], [(1, false), (0, false), (5, true)], false⟩, [], [], false⟩ = [3, 3, 3, 2, 2] := by
+  decide
 
 /-! ### corollaries: the drained row sequence, for every destination-size sequence -/
 
